@@ -6,7 +6,7 @@ import dataclasses
 import typing as t
 
 from typelib import marshals, serdes, unmarshals
-from typelib.py import classes, compat, inspection
+from typelib.py import classes, compat, inspection, refs
 
 __all__ = ("Codec", "codec")
 
@@ -14,7 +14,6 @@ __all__ = ("Codec", "codec")
 T = t.TypeVar("T")
 
 
-@compat.cache
 def codec(
     t: type[T],
     *,
@@ -54,6 +53,30 @@ def codec(
         codec_cls: The codec class definition, if overloading (optional).
 
     """
+    # A string reference is resolved against the caller's frame, so the same text
+    #   may name different types for different callers: resolve before memoizing.
+    if isinstance(t, str):
+        t = refs.evaluate(refs.forwardref(t))
+    return _codec(
+        t,
+        marshaller=marshaller,
+        unmarshaller=unmarshaller,
+        encoder=encoder,
+        decoder=decoder,
+        codec_cls=codec_cls,
+    )
+
+
+@compat.cache
+def _codec(
+    t: type[T],
+    *,
+    marshaller: marshals.AbstractMarshaller[T] | None,
+    unmarshaller: unmarshals.AbstractUnmarshaller[T] | None,
+    encoder: EncoderT,
+    decoder: DecoderT,
+    codec_cls: type[CodecT[T]] | None,
+) -> CodecT[T]:
     marshal = marshaller or marshals.marshaller(t=t)
     unmarshal = unmarshaller or unmarshals.unmarshaller(t=t)
     cls = codec_cls or Codec
